@@ -5,7 +5,8 @@ Local Open Scope N_scope.
 
 (** DetermineAddress rejects a result whose root is not the manifest CID: false = the tree
     as it stands (moves to Model/Current.v when merged). *)
-(* c14_root_checked_current lives in Model/Current.v *)
+(* c14_root_checked_current lives in Model/Current.v; so does c18_rejects_dotdot_current:
+   address.IsValid refuses a ".." part after the root (shared with Model/Lifecycle.v, C18) *)
 
 (** registered store types: 1 = eventlog, 2 = keyvalue, 3 = docstore (anything else is not) *)
 Definition c14_types : list N := [1; 2; 3].
@@ -28,7 +29,13 @@ Inductive case :=
 (** a store obtained from Create/Open of an address determined for (typ, w): observed root
     and manifest tokens, observed type and write list, and whether the store's address is
     the determined one *)
-| CRecorded (root manifest : N) (typ otyp : N) (w ow : list N) (same_addr : bool).
+| CRecorded (root manifest : N) (typ otyp : N) (w ow : list N) (same_addr : bool)
+(** one address.Parse call on the string [s] (split form), [cids] as above.  Observed: whether
+    address.IsValid accepted [s], the outcome of Parse (error, or root token and path), and
+    for a parsed address its String() in split form and the result of parsing that again. *)
+| CParse (s : list seg) (cids : list (N * N)) (valid : bool)
+         (obs : outcome (N * list seg)) (obs_str : list seg)
+         (obs_reparse : outcome (N * list seg)).
 
 Definition errkind_eqb (a b : errkind) : bool :=
   match a, b with
@@ -71,17 +78,35 @@ Definition check (c : case) : bool * bool :=
   match c with
   | CDetermine name typ creator w m cids obs obs_str obs_re =>
     let dec := decode_of cids in
-    let model := determine_address dec (fun _ => 0) (fun _ => m) c14_types
+    let model := determine_address c18_rejects_dotdot_current dec (fun _ => 0) (fun _ => m) c14_types
                                    c14_root_checked_current creator name typ w in
     let agree :=
       out_eqb model obs &&
       match obs with
-      | Ok a => segs_eqb (addr_string a) obs_str && out_eqb (addr_parse dec obs_str) obs_re
+      | Ok a => segs_eqb (addr_string a) obs_str && out_eqb (addr_parse c18_rejects_dotdot_current dec obs_str) obs_re
       | _ => true
       end in
     let holds :=
       match obs with
       | Ok a => (fst a =? m) && out_eqb obs_re (Ok a)
+      | _ => true
+      end in
+    (agree, holds)
+  | CParse s cids valid obs obs_str obs_re =>
+    let dec := decode_of cids in
+    let agree :=
+      out_eqb (addr_parse c18_rejects_dotdot_current dec s) obs &&
+      Bool.eqb (is_valid c18_rejects_dotdot_current dec s) valid &&
+      match obs with
+      | Ok a => segs_eqb (addr_string a) obs_str &&
+                out_eqb (addr_parse c18_rejects_dotdot_current dec obs_str) obs_re
+      | _ => true
+      end in
+    (* the printed form of a parsed address designates the same root (Properties/C14.v
+       C14_parsed_reprint; refuted for the pinned commit) *)
+    let holds :=
+      match obs with
+      | Ok a => match obs_re with Ok b => fst a =? fst b | _ => false end
       | _ => true
       end in
     (agree, holds)
